@@ -2,10 +2,16 @@
 use crate::engine::Args;
 
 pub mod c04;
+pub mod c05;
+pub mod c06;
+pub mod c07;
 
 pub fn dispatch(args: &Args) -> i32 {
     match args.id.as_str() {
         "C04" => c04::run(args),
+        "C05" => c05::run(args),
+        "C06" => c06::run(args),
+        "C07" => c07::run(args),
         other => {
             eprintln!("unknown property id {other}");
             2
